@@ -11,6 +11,11 @@ length 1-2, isolated nodes, self-loops, parallel edges), all policies incl. empt
 processing modes, coarse time steps (overshoot to negative amounts), repeated output fetches with sampling in between,
 grid and graph runs in one process, double finalize, calls on a released engine.  Any abort / sanitizer report is a
 failing input; so is a trajectory that differs bitwise between the plain and the instrumented builds.
+Marshalling (observed by wrapping the library call in the child, not by reading the code): every buffer handed to
+engineexport_initialize_{grid,graph} has exactly the length of the count passed alongside (n_sample / t_sample, n_edges /
+edge arrays, n_meshes*n_species / state and chemostat buffers, the tables), and the native return code is 0 for every
+script the Python setters accepted (3 engines x 2 spaces x the 4 accepted init_state_processing values, request lists
+with repeated times).
 Correspondence: op `lifecycle` on the observed clock (as C09) for the runs of the hardened build; op `checked_step` — one
 Iterate() of the checked-access model from each recorded state of real runs (logged draws) gives the next recorded state.
 """
@@ -24,7 +29,8 @@ ID = "C11"
 LEAN_TARGETS = ["Strengths.Props.C11", "Strengths.Props.C11Refine"]
 PROP_FILES = ["Strengths/Props/C11.lean", "Strengths/Props/C11Refine.lean"]
 GEN_GROUPS = ["EngineCpp", "EngineLife", "IndexPy"]
-RULE = ("scripts: 3 engines x grid/graph (60 % degenerate shapes) x 4 policies x request styles (incl. empty) x processing modes x "
+RULE = ("scripts: 3 engines x grid/graph (60 % degenerate shapes) x 4 policies x request styles (incl. empty, 40 % with repeated times) x "
+        "all 4 accepted processing modes for every engine and space (sanitizer subset: one job per engine x space x mode first) x "
         "coarse / fine time steps; each driven to completion with explicit samples, two output fetches with a sample in between, "
         "double finalize, then a call on the released engine; run on the plain, the assertion-hardened and (subset) the ASan/UBSan build; "
         "non-trivial when >= 2 steps were made; distinct by script")
@@ -55,10 +61,25 @@ def classify(stderr, status):
     return "abort" if status.startswith("crash") else status
 
 
-def make_job(rng, jid, option, coarse=False, **kw):
+MODES = ["auto", "none", "redist", "Poisson"]      # every value the RDScript setter accepts, for every engine and space
+
+
+def make_job(rng, jid, option, coarse=False, dup=False, **kw):
     job = c09.make_job(rng, jid, option, **kw)
     S = job["scripts"][0]
     info = job["info"]
+    if dup:
+        # a REPEATED requested time (valid: e.g. two concatenated linspace segments sharing an end point)
+        ts = S["kw"]["t_sample"]
+        vals = ts["__unitarray__"] if isinstance(ts, dict) else ts
+        if vals:
+            k = rng.randrange(len(vals))
+            for _ in range(rng.randint(1, 3)):
+                vals.insert(k, vals[k])
+            info["style"] = info["style"] + "+dup"
+            info["duplicates"] = True
+            if info.get("expect"):
+                info["expect"]["tsamples"].insert(k, info["expect"]["tsamples"][k])
     if coarse:
         # coarse time step: reaction / diffusion events overshoot, amounts go negative (valid script, poor accuracy);
         # short runs keep the amounts far below 2^31
@@ -88,7 +109,9 @@ def make_job(rng, jid, option, coarse=False, **kw):
         info["explicit_tmax"] = True
     size = info["nsp"] * info["n"]
     # after the C09 sequence (… drive, get_output, finalize): second fetch with a sample in between, double finalize, use after release
-    calls = job["calls"][:-1]
+    calls = list(job["calls"])
+    while calls and calls[-1]["call"] in ("simulate", "finalize"):
+        calls.pop()
     calls += [{"obj": 0, "call": "sample"}, {"obj": 0, "call": "iterate"}, {"obj": 0, "call": "sample"},
               {"obj": 0, "call": "get_output", "full": False}, {"obj": 0, "call": "get_progress"},
               {"obj": 0, "call": "finalize"}, {"obj": 0, "call": "finalize"},
@@ -200,11 +223,23 @@ def explore(ctx, n, n_asan, p_degenerate=0.6, tag="m", with_model=True, p_coarse
     for i in range(n):
         option = lc.OPTIONS[i % 3]
         coarse = (option != "gillespie") and rng.random() < p_coarse
-        kw = {"degenerate": rng.random() < p_degenerate, "policy": lc.POLICIES[(i // 3) % 4],
-              "max_steps": 40 if option != "gillespie" else 12, "space_kind": ["grid", "graph"][(i // 12) % 2] if i % 5 else None}
-        jobs.append(make_job(rng, "%s%d" % (tag, i), option, coarse=coarse, **kw))
+        # every block of 12 jobs holds the 3 engines x 4 processing modes on one space type, two blocks both space types
+        kw = {"degenerate": rng.random() < p_degenerate, "policy": lc.POLICIES[(i // 3) % 4], "mode": MODES[(i // 3 + i // 12) % 4],
+              "max_steps": 40 if option != "gillespie" else 12, "space_kind": ["grid", "graph"][(i // 12) % 2]}
+        jobs.append(make_job(rng, "%s%d" % (tag, i), option, coarse=coarse, dup=(rng.random() < 0.4), **kw))
+    # the sanitizer subset: first one job per (engine, space, processing mode), then jobs with repeated request times, then the rest
+    first, rest = {}, []
+    for j in jobs:
+        key = (j["info"]["option"], j["info"]["space"], j["info"]["mode"])
+        if key not in first:
+            first[key] = j
+        else:
+            rest.append(j)
+    rest.sort(key=lambda j: 0 if j["info"].get("duplicates") else 1)
+    asan_jobs = (list(first.values()) + rest)[:max(n_asan, len(first))]
+    ctx.count("asan_mode_engine_space_combinations", len(first))
     res = {}
-    builds = [("plain", jobs), ("hard", jobs), ("asan", jobs[:n_asan])]
+    builds = [("plain", jobs), ("hard", jobs), ("asan", asan_jobs)]
     for kind, js in builds:
         res[kind] = lc.run_jobs([dict(j) for j in js], kind=kind, chunk=ctx.n(8, 40), parallel=ctx.n(8, 8), stall=ctx.n(15, 60))
     ops, metas = [], []
@@ -222,6 +257,9 @@ def explore(ctx, n, n_asan, p_degenerate=0.6, tag="m", with_model=True, p_coarse
                 continue
             ctx.count("runs_" + kind)
             if r["status"] != "ok":
+                for x in r["results"]:
+                    for key, what, impl, exp in lc.init_failures(x):
+                        ctx.violation(key, "%s build: %s" % (kind, what), dict(case, build=kind), impl=impl, expected=exp)
                 at = r["at"] if r["at"] is not None else len(r["results"])
                 call = job["calls"][at]["call"] if at < len(job["calls"]) else "end-of-job"
                 what = classify(r.get("stderr", ""), r["status"])
@@ -235,6 +273,9 @@ def explore(ctx, n, n_asan, p_degenerate=0.6, tag="m", with_model=True, p_coarse
                 if not (info["style"] == "empty" and not info["explicit_tmax"]):
                     ctx.violation("raised", "a lifecycle call raised on a valid script: %s" % raised[0]["raised"], dict(case, build=kind))
                 continue
+            for x in r["results"]:
+                for key, what, impl, exp in lc.init_failures(x):
+                    ctx.violation(key, "%s build: %s" % (kind, what), dict(case, build=kind), impl=impl, expected=exp)
             outs = [x["ret"]["hash"] for c, x in zip(job["calls"], r["results"]) if c["call"] == "get_output"]
             hashes[kind] = outs
             if kind == "hard":
@@ -273,6 +314,10 @@ def replay(ctx, rec):
     detail = {"build": kind, "status": r["status"], "at": r["at"], "stderr": r.get("stderr", "")[-800:]}
     if r["status"] != "ok":
         detail["class"] = classify(r.get("stderr", ""), r["status"])
+        return False, detail
+    inits = [f for x in r["results"] for f in lc.init_failures(x)]
+    if inits:
+        detail["marshalling"] = [{"key": f[0], "what": f[1]} for f in inits[:3]]
         return False, detail
     if rec.get("key") == "result-depends-on-build":
         res2 = lc.run_jobs([dict(job)], kind="plain", parallel=1, stall=60)
